@@ -1,0 +1,251 @@
+//go:build verif
+
+// Contracts for the NFSv3 procedure handlers (nfs_proc_*.go, nfs_handlers.go, nfs_operations.go) and the
+// operation layer they drive (operations.go): C08 (and the reply helpers used by C14). Comment-only file.
+package absnfs
+
+// status word of an NFS reply body
+//@ specdef replyIsBytes(r *RPCReply) bool = typeof(r.Data) == typeid([]byte)
+//@ specdef replyLen(r *RPCReply) mathint = len(unboxed(r.Data, []byte))
+//@ specdef replyWord(r *RPCReply, p mathint) mathint = sbe32(unboxed(r.Data, []byte), p)
+//@ specdef replyStatus(r *RPCReply) mathint = sbe32(unboxed(r.Data, []byte), 0)
+
+// ---- error reply builders: status word followed by "no attributes" markers
+//@ func nfsErrorReply
+//@ prop C08 C14
+//@ requires reply != nil
+//@ modifies reply.Data, wlen, wdata
+//@ ensures [shape] result == reply && replyIsBytes(reply) && replyLen(reply) == 4 && replyStatus(reply) == status
+
+//@ func nfsErrorWithPostOp
+//@ prop C08 C14
+//@ requires reply != nil
+//@ modifies reply.Data, wlen, wdata
+//@ ensures [shape] result == reply && replyIsBytes(reply) && replyLen(reply) == 8 && replyStatus(reply) == status && replyWord(reply, 4) == 0
+
+//@ func nfsErrorWithWcc
+//@ prop C08 C14
+//@ requires reply != nil
+//@ modifies reply.Data, wlen, wdata
+//@ ensures [shape] result == reply && replyIsBytes(reply) && replyLen(reply) == 12 && replyStatus(reply) == status && replyWord(reply, 4) == 0 && replyWord(reply, 8) == 0
+
+//@ func nfsErrorWithPostOpAndWcc
+//@ prop C08 C14
+//@ requires reply != nil
+//@ modifies reply.Data, wlen, wdata
+//@ ensures [shape] result == reply && replyIsBytes(reply) && replyLen(reply) == 16 && replyStatus(reply) == status && replyWord(reply, 4) == 0 && replyWord(reply, 8) == 0 && replyWord(reply, 12) == 0
+
+//@ func nfsErrorWithDoubleWcc
+//@ prop C08 C14
+//@ requires reply != nil
+//@ modifies reply.Data, wlen, wdata
+//@ ensures [shape] result == reply && replyIsBytes(reply) && replyLen(reply) == 20 && replyStatus(reply) == status && replyWord(reply, 4) == 0 && replyWord(reply, 8) == 0 && replyWord(reply, 12) == 0 && replyWord(reply, 16) == 0
+
+// ---- the dispatch table: what every entry of nfsHandlers guarantees, whatever the procedure
+//@ functype nfsHandler(h, body, reply, authCtx)
+//@ prop C08
+//@ requires srvOK(h) && reply != nil && authCtx != nil
+//@ modifies everything, allghosts - handlerCalls - atomicptr - lsncfg - poolsrc, locks, once
+// while the read-only policy is in force the handler issues no modifying backend operation
+//@ ensures [ro-no-backend-mutation] old(curPolicy(h.server.handler).ReadOnly) ==> mutlog == old(mutlog)
+
+//@ func NFSProcedureHandler.handleNFSCall
+//@ prop C08
+//@ partial
+//@ partial
+//@ requires srvOK(h) && call != nil && reply != nil && authCtx != nil
+//@ modifies everything, allghosts - handlerCalls - atomicptr - lsncfg - poolsrc, locks, once
+//@ ensures [ro-no-backend-mutation] old(curPolicy(h.server.handler).ReadOnly) ==> mutlog == old(mutlog)
+
+// ---- procedures that never modify the backend, read-only export or not
+//@ func NFSProcedureHandler.handleNull
+//@ prop C08
+//@ partial
+//@ ensures [never-mutates] mutlog == old(mutlog)
+//@ func NFSProcedureHandler.handleGetattr
+//@ prop C08
+//@ partial
+//@ ensures [never-mutates] mutlog == old(mutlog)
+//@ func NFSProcedureHandler.handleLookup
+//@ prop C08
+//@ partial
+//@ ensures [never-mutates] mutlog == old(mutlog)
+//@ func NFSProcedureHandler.handleReadlink
+//@ prop C08
+//@ partial
+//@ ensures [never-mutates] mutlog == old(mutlog)
+//@ func NFSProcedureHandler.handleRead
+//@ prop C08
+//@ partial
+//@ ensures [never-mutates] mutlog == old(mutlog)
+//@ func NFSProcedureHandler.handleReaddir
+//@ prop C08
+//@ partial
+//@ ensures [never-mutates] mutlog == old(mutlog)
+//@ func NFSProcedureHandler.handleReaddirplus
+//@ prop C08
+//@ partial
+//@ ensures [never-mutates] mutlog == old(mutlog)
+//@ func NFSProcedureHandler.handleFsstat
+//@ prop C08
+//@ partial
+//@ ensures [never-mutates] mutlog == old(mutlog)
+//@ func NFSProcedureHandler.handleFsinfo
+//@ prop C08
+//@ partial
+//@ ensures [never-mutates] mutlog == old(mutlog)
+//@ func NFSProcedureHandler.handlePathconf
+//@ prop C08
+//@ partial
+//@ ensures [never-mutates] mutlog == old(mutlog)
+
+// ---- mutating procedures: refused with NFS3ERR_ROFS (30) before anything else happens
+//@ func NFSProcedureHandler.handleSetattr
+//@ prop C08
+//@ partial
+//@ ensures [ro-refused] old(curPolicy(h.server.handler).ReadOnly) ==> result0 == reply && replyIsBytes(reply) && replyStatus(reply) == 30
+//@ func NFSProcedureHandler.handleWrite
+//@ prop C08
+//@ partial
+//@ ensures [ro-refused] old(curPolicy(h.server.handler).ReadOnly) ==> result0 == reply && replyIsBytes(reply) && replyStatus(reply) == 30
+//@ func NFSProcedureHandler.handleCreate
+//@ prop C08
+//@ partial
+//@ ensures [ro-refused] old(curPolicy(h.server.handler).ReadOnly) ==> result0 == reply && replyIsBytes(reply) && replyStatus(reply) == 30
+//@ func NFSProcedureHandler.handleMkdir
+//@ prop C08
+//@ partial
+//@ ensures [ro-refused] old(curPolicy(h.server.handler).ReadOnly) ==> result0 == reply && replyIsBytes(reply) && replyStatus(reply) == 30
+//@ func NFSProcedureHandler.handleSymlink
+//@ prop C08
+//@ partial
+//@ ensures [ro-refused] old(curPolicy(h.server.handler).ReadOnly) ==> result0 == reply && replyIsBytes(reply) && replyStatus(reply) == 30
+//@ func NFSProcedureHandler.handleRemove
+//@ prop C08
+//@ partial
+//@ ensures [ro-refused] old(curPolicy(h.server.handler).ReadOnly) ==> result0 == reply && replyIsBytes(reply) && replyStatus(reply) == 30
+//@ func NFSProcedureHandler.handleRmdir
+//@ prop C08
+//@ partial
+//@ ensures [ro-refused] old(curPolicy(h.server.handler).ReadOnly) ==> result0 == reply && replyIsBytes(reply) && replyStatus(reply) == 30
+//@ func NFSProcedureHandler.handleRename
+//@ prop C08
+//@ partial
+//@ ensures [ro-refused] old(curPolicy(h.server.handler).ReadOnly) ==> result0 == reply && replyIsBytes(reply) && replyStatus(reply) == 30
+//@ func NFSProcedureHandler.handleCommit
+//@ prop C08
+//@ partial
+//@ ensures [ro-refused] old(curPolicy(h.server.handler).ReadOnly) ==> result0 == reply && replyIsBytes(reply) && replyStatus(reply) == 30
+// LINK and MKNOD are not supported at all: they fail whatever the policy
+//@ func NFSProcedureHandler.handleLink
+//@ prop C08
+//@ partial
+//@ ensures [always-fails] result0 == reply && replyIsBytes(reply) && replyStatus(reply) != 0 && mutlog == old(mutlog)
+//@ func NFSProcedureHandler.handleMknod
+//@ prop C08
+//@ partial
+//@ ensures [always-fails] result0 == reply && replyIsBytes(reply) && replyStatus(reply) != 0 && mutlog == old(mutlog)
+
+// ---- error mapping: a failure never maps to NFS3_OK
+//@ func mapError
+//@ prop C08 C14
+//@ ensures [ok-iff-nil] result == 0 <==> isnil(err)
+
+// ---- operation layer: reads never modify the backend
+//@ func AbsfsNFS.ReadWithContext
+//@ prop C08
+//@ partial
+//@ requires s != nil && curTuning(s) != nil
+//@ ensures [never-mutates] mutlog == old(mutlog)
+//@ func AbsfsNFS.Read
+//@ prop C08
+//@ partial
+//@ requires s != nil && curTuning(s) != nil
+//@ ensures [never-mutates] mutlog == old(mutlog)
+//@ func AbsfsNFS.ReadDirWithContext
+//@ prop C08
+//@ partial
+//@ requires s != nil && curTuning(s) != nil
+//@ ensures [never-mutates] mutlog == old(mutlog)
+//@ func AbsfsNFS.ReadDir
+//@ prop C08
+//@ partial
+//@ requires s != nil && curTuning(s) != nil
+//@ ensures [never-mutates] mutlog == old(mutlog)
+//@ func AbsfsNFS.ReadDirPlus
+//@ prop C08
+//@ partial
+//@ requires s != nil && curTuning(s) != nil
+//@ ensures [never-mutates] mutlog == old(mutlog)
+
+// ---- operation layer: every modifying operation refuses a read-only export before touching the backend
+//@ func AbsfsNFS.WriteWithContext
+//@ prop C08
+//@ partial
+//@ requires s != nil && curTuning(s) != nil && curPolicy(s) != nil
+//@ ensures [ro-refused] old(curPolicy(s).ReadOnly) ==> mutlog == old(mutlog) && !isnil(result1)
+//@ func AbsfsNFS.Write
+//@ prop C08
+//@ partial
+//@ requires s != nil && curTuning(s) != nil && curPolicy(s) != nil
+//@ ensures [ro-refused] old(curPolicy(s).ReadOnly) ==> mutlog == old(mutlog) && !isnil(result1)
+//@ func AbsfsNFS.CreateWithContext
+//@ prop C08
+//@ partial
+//@ requires s != nil && curTuning(s) != nil && curPolicy(s) != nil
+//@ ensures [ro-refused] old(curPolicy(s).ReadOnly) ==> mutlog == old(mutlog) && !isnil(result1)
+//@ func AbsfsNFS.Create
+//@ prop C08
+//@ partial
+//@ requires s != nil && curTuning(s) != nil && curPolicy(s) != nil
+//@ ensures [ro-refused] old(curPolicy(s).ReadOnly) ==> mutlog == old(mutlog) && !isnil(result1)
+//@ func AbsfsNFS.RemoveWithContext
+//@ prop C08
+//@ partial
+//@ requires s != nil && curTuning(s) != nil && curPolicy(s) != nil
+//@ ensures [ro-refused] old(curPolicy(s).ReadOnly) ==> mutlog == old(mutlog) && !isnil(result)
+//@ func AbsfsNFS.Remove
+//@ prop C08
+//@ partial
+//@ requires s != nil && curTuning(s) != nil && curPolicy(s) != nil
+//@ ensures [ro-refused] old(curPolicy(s).ReadOnly) ==> mutlog == old(mutlog) && !isnil(result)
+//@ func AbsfsNFS.RenameWithContext
+//@ prop C08
+//@ partial
+//@ requires s != nil && curTuning(s) != nil && curPolicy(s) != nil
+//@ ensures [ro-refused] old(curPolicy(s).ReadOnly) ==> mutlog == old(mutlog) && !isnil(result)
+//@ func AbsfsNFS.Rename
+//@ prop C08
+//@ partial
+//@ requires s != nil && curTuning(s) != nil && curPolicy(s) != nil
+//@ ensures [ro-refused] old(curPolicy(s).ReadOnly) ==> mutlog == old(mutlog) && !isnil(result)
+//@ func AbsfsNFS.Symlink
+//@ prop C08
+//@ partial
+//@ requires s != nil && curTuning(s) != nil && curPolicy(s) != nil
+//@ ensures [ro-refused] old(curPolicy(s).ReadOnly) ==> mutlog == old(mutlog) && !isnil(result1)
+
+// ---- lookups, attribute reads and link reads never modify the backend
+//@ func AbsfsNFS.LookupWithContext
+//@ prop C08
+//@ partial
+//@ requires s != nil && curTuning(s) != nil
+//@ ensures [never-mutates] mutlog == old(mutlog)
+//@ func AbsfsNFS.Lookup
+//@ prop C08
+//@ partial
+//@ requires s != nil && curTuning(s) != nil
+//@ ensures [never-mutates] mutlog == old(mutlog)
+//@ func AbsfsNFS.Readlink
+//@ prop C08
+//@ partial
+//@ requires s != nil
+//@ ensures [never-mutates] mutlog == old(mutlog)
+
+// ---- the MOUNT program never modifies the backend
+//@ func NFSProcedureHandler.handleMountCall
+//@ prop C08
+//@ partial
+//@ requires srvOK(h) && call != nil && reply != nil && authCtx != nil
+//@ modifies everything, allghosts - handlerCalls - atomicptr - lsncfg - poolsrc, locks, once
+//@ ensures [never-mutates] mutlog == old(mutlog)
